@@ -107,6 +107,10 @@ def instances(tier, rng):
                 {"wt": "float", "num": 1, "den": 1},
                 {"opt": {"optimize_with_safe_sequences": False}},
                 {"opt": {"optimize_with_safe_sequences": True, "optimize_with_safe_sequences_fix_zero_edges": True}},
+                # fixings through queued bounds, under a finite time limit with the wrapper's own timeout armed as well
+                {"opt": {"optimize_with_safe_sequences": True, "optimize_with_safe_sequences_fix_zero_edges": True,
+                         "optimize_with_safe_sequences_fix_via_bounds": True},
+                 "sopt": {"time_limit": 300, "use_also_custom_timeout": True}},
             ]
             if cls == "MinFlowDecompCycles":
                 routes.append({"opt": {"optimize_with_guessed_weights": True}})
@@ -115,7 +119,7 @@ def instances(tier, rng):
             routes.append({"ign": [list(e)]})
             es = C.route_edges(rng.choice(u["proutes"]))
             routes.append({"cons": [es[:2]]})
-            for cfg in (routes if not quick else routes[:3] + rng.sample(routes[3:], 2)):
+            for cfg in (routes if not quick else routes[:3] + rng.sample(routes[3:], 3)):
                 r = C.base(u, cls, cfg.get("mode", "edge"))
                 r["wt"] = "int"
                 if cls == "kFlowDecompCycles":
